@@ -1095,7 +1095,9 @@ def minimal_cause(e, assignments):
         f = value_fails(sub, res[1], assignments)
         if f is not None:
             if f[0] == "fp" and sub.kind in SIGN_SENSITIVE and zero_sign_only(sub, f[1]):
-                return SIGNZERO, to_dag_safe(sub), f
+                # the signature names the RULE that flips the sign of the zero, so that another rule doing the same
+                # is a different violation
+                return SIGNZERO + zero_sign_causes(sub, f[1]), to_dag_safe(sub), f
             if typed is not None:
                 # a smaller sub-expression changed its dtype under rewriting: the cause is the dropped / moved
                 # implicit promotion of mixed-precision operands (later folds then happen in the narrower dtype)
@@ -1112,7 +1114,7 @@ def minimal_cause(e, assignments):
 
 
 SIGN_SENSITIVE = {"atan2", "copysign", "divide", "sign"}
-SIGNZERO = "sign-of-zero:a rule changes the sign of a zero operand (0 - y -> -y, x + 0 -> x) and atan2/copysign amplify it"
+SIGNZERO = "sign-of-zero:"   # + the rule(s) that flip the sign of a zero, see zero_sign_causes
 
 
 def zero_sign_only(sub, envf_rec):
@@ -1139,6 +1141,47 @@ def zero_sign_only(sub, envf_rec):
         if w0 == 0 and bool(numpy.signbit(w0)) != bool(numpy.signbit(w1)):
             differs = True
     return differs
+
+
+def zero_sign_causes(sub, envf_rec):
+    """the minimal sub-expressions of `sub`'s operands whose own rewriting flips the sign of a zero value: `[kind(operand kinds)->kind, ...]`"""
+    F = fa()
+    _, envf = decode_env(dict(q={}, f=envf_rec))
+    causes = []
+    for o in sub.operands:
+        if not isinstance(o, F.Expr):
+            continue
+        for s_ in sub_exprs(o):
+            r = real_rewrite(s_)
+            if r[0] != "ok" or r[1] is s_:
+                continue
+            try:
+                w0, w1 = eval_fp(s_, envf, check=False), eval_fp(r[1], envf, check=False)
+            except Undefined:
+                continue
+            if isinstance(w0, (bool, numpy.bool_)) or isinstance(w1, (bool, numpy.bool_)):
+                continue
+            try:
+                flip = (w0 == 0 and w1 == 0 and bool(numpy.signbit(w0)) != bool(numpy.signbit(w1)))
+            except Exception:  # noqa: BLE001
+                flip = False
+            if flip:
+                def opnd(x):
+                    if not isinstance(x, F.Expr):
+                        return "py"
+                    if x.kind == "constant":
+                        v = x.operands[0]
+                        try:
+                            return "0" if (not isinstance(v, (str, F.Expr)) and v == 0) else "c"
+                        except Exception:  # noqa: BLE001
+                            return "c"
+                    return "_"
+                c = f"{s_.kind}({','.join(opnd(x) for x in s_.operands)})->{'operand' if any(r[1] is x for x in s_.operands) else r[1].kind}"
+                if c not in causes:
+                    causes.append(c)
+                break
+    # one cause per failure (the first operand's): a combination of known causes must not look like a new one
+    return "[" + (causes[0] if causes else "?") + "]"
 
 
 MIXED = "mixed-dtype:rewriting changes the dtype of a sub-expression(implicit promotion of mixed-precision operands dropped)"
